@@ -86,10 +86,12 @@ def mutate_value(rng, v, size, other=None, be=False):
 
 
 class Case:
-    __slots__ = ("cid", "image", "patches", "descr", "cls")
+    __slots__ = ("cid", "image", "patches", "descr", "cls", "op_patches", "fix_sb_csum")
 
-    def __init__(self, cid, image, patches, descr, cls):
+    def __init__(self, cid, image, patches, descr, cls, op_patches=None, fix_sb_csum=False):
         self.cid, self.image, self.patches, self.descr, self.cls = cid, image, patches, descr, cls
+        self.op_patches = op_patches or []
+        self.fix_sb_csum = fix_sb_csum
 
     def to_json(self):
         return {"cid": self.cid, "image": self.image, "descr": self.descr, "cls": self.cls,
@@ -190,7 +192,7 @@ class Universe:
         else:
             nops = rng.choice([1, 1, 1, 1, 2, 2, 3, 5])
             gen = None
-        patches, descr = [], []
+        patches, descr, op_patches = [], [], []
         kinds = list(KIND_WEIGHTS)
         weights = [KIND_WEIGHTS[k] for k in kinds]
         for _ in range(nops):
@@ -205,11 +207,23 @@ class Universe:
                 continue
             p, d = r
             patches.extend(p)
+            op_patches.append(list(p))
             descr.append(d)
         if not patches:
             p, d = self._op(rng, inf, "bytes")
             patches.extend(p)
+            op_patches.append(list(p))
             descr.append(d)
+        return self._finish(cid, name, inf, profile, descr, op_patches)
+
+    def subset(self, case, keep, profile="all"):
+        """the same case with only the operators whose indices are in `keep`"""
+        inf = self.info(case.image)
+        return self._finish(case.cid, case.image, inf, profile,
+                            [case.descr[i] for i in keep], [case.op_patches[i] for i in keep])
+
+    def _finish(self, cid, name, inf, profile, descr, op_patches):
+        patches = [p for ops in op_patches for p in ops]
         if profile == "summary" and "metadata_csum" in inf.features and \
                 any(d[0] == "sb" and d[1] != "s_checksum" for d in descr) and \
                 not any(d[0] == "sb" and d[1] == "s_checksum" for d in descr):
@@ -222,7 +236,7 @@ class Universe:
             c = _crc.crc32c(0xFFFFFFFF, bytes(sbraw[:1020]))
             patches.append((1024 + 1020, struct.pack("<I", c)))
         cls = "+".join(sorted(set("%s.%s" % (d[0], d[1]) for d in descr)))
-        return Case(cid, name, patches, descr, cls)
+        return Case(cid, name, patches, descr, cls, op_patches)
 
     # ---------------------------------------------------------------------------------
     def _field_patch(self, rng, inf, base_off, fields, kind, other_off=None):
